@@ -61,6 +61,9 @@ func strLen(v value) int {
 	case string:
 		return len(v)
 	case symstr:
+		if hasDecTok(v.b) {
+			panic(engineError{"len of a string with a decimal token (digits are not modelled)"})
+		}
 		return len(v.b)
 	}
 	panic(engineError{fmt.Sprintf("strLen: %T", v)})
